@@ -28,6 +28,12 @@ RECURSIVE Concat(_, _)
 Concat(files, k) == IF k > Len(files) THEN <<>> ELSE files[k].lines \o Concat(files, k + 1)
 Lines(files) == Concat(Chrono(files), 1)
 
+(* ---- EAPI 8: free-form file names.  PMS leaves the order of such files open, so no particular
+   order is demanded -- but the files form A sequence: the result must be what some order of
+   the files gives, the same one however the directory happens to list them.              ---- *)
+FileOrders(n) == {p \in [1..n -> 1..n] : \A i, j \in 1..n : i # j => p[i] # p[j]}
+LinesUnder(files, p) == Concat([k \in 1..Len(files) |-> files[p[k]]], 1)
+
 (* ---- which lines are accepted ---- *)
 RECURSIVE AccFrom(_, _, _)
 AccFrom(lines, k, moved) ==
